@@ -377,11 +377,14 @@ def inline_call(call, env, cx):
         v = cx.fresh(p_)
         lets.append("let %s := %s in " % (v, t))
         env_c[p_] = (v, ty)
-    frame = {"name": name, "ty": None}
+    frame = {"name": name, "ty": None, "unit": bool(getattr(cx, "inline_unit", 0)) and not cx.inline}
     cx.inline.append(frame)
     depth, cx.loop_depth = cx.loop_depth, 0
 
     def fell_off(_env):
+        if frame["unit"]:
+            frame["ty"] = "unit"
+            return "Some tt"
         bad(call, "helper %s can fall off its end" % name)
     try:
         body = stmts(fdef.body, env_c, cx, fell_off, None)
@@ -583,8 +586,17 @@ def stmts(body, env, cx, k_end, k_break=None):
     if isinstance(s, ast.Expr):
         if isinstance(s.value, ast.Constant) and isinstance(s.value.value, str):
             return nxt(env)                                   # docstring
-        if isinstance(s.value, ast.Call) and ast.unparse(s.value.func) in ("warnings.warn", "logger.info", "logger.warning"):
+        if isinstance(s.value, ast.Call) and ast.unparse(s.value.func) in ("warnings.warn", "logger.info", "logger.warning", "logger.debug",
+                                                                             "logger.error", "logging.warning", "logging.info", "logging.debug"):
             return nxt(env)                                   # no effect on the modelled state
+        if isinstance(s.value, ast.Call) and helper_def(s.value, cx, env) is not None:
+            # a helper called for its checks only (it raises or returns nothing): its body runs, the result is dropped
+            cx.inline_unit = getattr(cx, "inline_unit", 0) + 1
+            try:
+                b, _v, _ty = inline_call(s.value, env, cx)
+            finally:
+                cx.inline_unit -= 1
+            return with_binds(b, nxt(env))
         if isinstance(s.value, ast.Call) and isinstance(s.value.func, ast.Attribute) and isinstance(s.value.func.value, ast.Name) \
                 and s.value.func.value.id not in ("self", "cls"):
             pat, term, callee = method_call(s.value, env, cx)   # <element>.<method>(): the element's fields are updated
@@ -700,7 +712,10 @@ def stmts(body, env, cx, k_end, k_break=None):
         if cx.loop_depth:
             bad(s, "return inside a loop over records")
         if cx.inline:
-            if s.value is None:
+            if s.value is None or (isinstance(s.value, ast.Constant) and s.value.value is None):
+                if cx.inline[-1].get("unit"):
+                    cx.inline[-1]["ty"] = "unit"
+                    return "Some tt"
                 bad(s, "helper returns no value")
             b, t, ty = expr(s.value, env, cx)
             fr = cx.inline[-1]
